@@ -406,9 +406,12 @@ static void run(const Case &c, Ctx &ctx) {
     std::string userinfo = ui == 2 ? user + ":" + password : user;
     std::string authority = (ui ? userinfo + "@" : "") + hosttext + (port_present ? ":" + port : "");
     // cfg[6] = 1 (hand-written replay files only) keeps "" / "s://" and expects the components it was assembled from
-    if (authority.empty() && path.empty() && !query_present && c.c(CF_STRICT) % 2 == 0) {
+    // "" (no component at all) is not a URI; "s://" is the listed known finding uri-scheme-only-rejected and is
+    // excluded only while known_findings.json lists it (VERIF_KNOWN), so that the search continues behind it
+    static const bool scheme_only_known = getenv("VERIF_KNOWN") && strstr(getenv("VERIF_KNOWN"), "uri-scheme-only-rejected");
+    if (authority.empty() && path.empty() && !query_present && c.c(CF_STRICT) % 2 == 0 && (scheme.empty() || scheme_only_known)) {
         path = "/";
-        ctx.tag("excl_nothing_after_scheme");
+        ctx.tag(scheme.empty() ? "excl_empty_string" : "excluded_known_scheme_only");
     }
 
     Expect e;
